@@ -7,8 +7,13 @@
 (*   syncCh / asyncCh   bounded tokio channels of the sink (try_send / send)*)
 (*   slot               Connection.next_notification (parked while the      *)
 (*                      outbound substream is not ready)                    *)
-(*   wire               the outbound substream (FIFO, C04), room for WireCap *)
-(*                      notifications before poll_ready returns Pending     *)
+(*   pq / pf            the Sink of the outbound Substream: pending_out_frames *)
+(*                      (queue, poll_ready is Pending at SinkCap entries) and *)
+(*                      pending_out_frame (the unwritten remainder of a      *)
+(*                      frame whose poll_write was partial: it goes first);  *)
+(*                      a "big" notification needs two writes                *)
+(*   wire               the byte stream below (FIFO of chunks, C04), room    *)
+(*                      for WireCap chunks before poll_write returns Pending *)
 (*   notifCh            the handle's shared inbound channel (cap N); a slot  *)
 (*                      is reserved (poll_reserve) before the substream is  *)
 (*                      read; it survives close / reopen                    *)
@@ -21,32 +26,34 @@
 (***************************************************************************)
 EXTENDS NotifStream, Integers, SequencesExt, Json
 
-CONSTANTS S, A, N, WireCap, MaxSend, MaxReopen,
+CONSTANTS S, A, N, WireCap, SinkCap, MaxSend, MaxReopen,
+          Sizes,  \* subset of {"small", "big", "over"}: big = larger than one write accepts, over = above the maximum
           Mut,   \* "none" or a seeded defect for the negative configurations
           Fixed, \* TRUE: model of the proposed repair (notifications carry the generation of their stream)
           KnownStale  \* TRUE: the stale-delivery-after-reopen finding is recorded as known
 
-VARIABLES syncCh, asyncCh, slot, wire, fin, notifCh, sview, rview, stask, rtask, per, nxt, nsend, nre, D, stale, hist
+VARIABLES syncCh, asyncCh, slot, pq, pf, wire, fin, notifCh, sview, rview, stask, rtask, per, nxt, nsend, nre, D, stale, hist
 
-vars == <<syncCh, asyncCh, slot, wire, fin, notifCh, sview, rview, stask, rtask, per, nxt, nsend, nre, D, stale, hist>>
+vars == <<syncCh, asyncCh, slot, pq, pf, wire, fin, notifCh, sview, rview, stask, rtask, per, nxt, nsend, nre, D, stale, hist>>
 Note(a) == hist' = Append(hist, a)
 Nil == [m |-> "none"]
 MAXSZ == 10
 
 Init ==
-  /\ syncCh = <<>> /\ asyncCh = <<>> /\ slot = Nil /\ wire = <<>> /\ fin = FALSE /\ notifCh = <<>>
+  /\ syncCh = <<>> /\ asyncCh = <<>> /\ slot = Nil /\ pq = <<>> /\ pf = Nil /\ wire = <<>> /\ fin = FALSE /\ notifCh = <<>>
   /\ sview = TRUE /\ rview = TRUE /\ stask = TRUE /\ rtask = TRUE
   /\ per = 1 /\ nxt = [m \in Modes |-> 1] /\ nsend = 0 /\ nre = 0
   /\ D = POpened(DInit(S, A, MAXSZ), 1)
   /\ stale = FALSE /\ hist = <<>>
 
-Msg(m, over) == [m |-> m, per |-> per, n |-> nxt[m], len |-> IF over THEN MAXSZ + 1 ELSE MAXSZ]
+\* parts = number of writes the frame needs (a partial write leaves a remainder)
+Msg(m, sz) == [m |-> m, per |-> per, n |-> nxt[m], len |-> IF sz = "over" THEN MAXSZ + 1 ELSE MAXSZ, parts |-> IF sz = "big" THEN 2 ELSE 1]
 
 \* NotificationSink::send_sync_notification (try_send)
-SendSync(over) ==
+SendSync(sz) ==
   /\ sview /\ nsend < MaxSend
   /\ nsend' = nsend + 1
-  /\ LET msg == Msg("s", over) IN
+  /\ LET msg == Msg("s", sz) IN
      IF ~stask THEN /\ D' = PSend(D, "s", per, msg.n, msg.len, "noconn", 0, TRUE)
                     /\ UNCHANGED <<syncCh, nxt>>
      ELSE IF Len(syncCh) >= S THEN
@@ -55,13 +62,13 @@ SendSync(over) ==
      ELSE /\ syncCh' = Append(syncCh, msg)
           /\ nxt' = [nxt EXCEPT !["s"] = @ + 1]
           /\ D' = PSend(D, "s", per, msg.n, msg.len, "ok", 0, TRUE)
-  /\ Note([a |-> "ssend", over |-> over])
-  /\ UNCHANGED <<asyncCh, slot, wire, fin, notifCh, sview, rview, stask, rtask, per, nre, stale>>
+  /\ Note([a |-> "ssend", sz |-> sz])
+  /\ UNCHANGED <<asyncCh, slot, pq, pf, wire, fin, notifCh, sview, rview, stask, rtask, per, nre, stale>>
 
 \* NotificationSink::send_async_notification (send().await): waits while the channel is full
-SendAsync(over) ==
+SendAsync(sz) ==
   /\ sview /\ nsend < MaxSend
-  /\ LET msg == Msg("a", over) IN
+  /\ LET msg == Msg("a", sz) IN
      \/ /\ ~stask
         /\ D' = PSend(D, "a", per, msg.n, msg.len, "err", 0, TRUE)
         /\ UNCHANGED <<asyncCh, nxt>>
@@ -70,36 +77,64 @@ SendAsync(over) ==
         /\ nxt' = [nxt EXCEPT !["a"] = @ + 1]
         /\ D' = PSend(D, "a", per, msg.n, msg.len, "ok", 0, TRUE)
   /\ nsend' = nsend + 1
-  /\ Note([a |-> "asend", over |-> over])
-  /\ UNCHANGED <<syncCh, slot, wire, fin, notifCh, sview, rview, stask, rtask, per, nre, stale>>
+  /\ Note([a |-> "asend", sz |-> sz])
+  /\ UNCHANGED <<syncCh, slot, pq, pf, wire, fin, notifCh, sview, rview, stask, rtask, per, nre, stale>>
 
 \* Connection::poll_next, sending half: select! over async_rx / sync_rx
 ConnTake ==
   /\ stask /\ slot = Nil
   /\ \/ /\ asyncCh # <<>> /\ slot' = Head(asyncCh) /\ asyncCh' = Tail(asyncCh) /\ UNCHANGED syncCh
      \/ /\ syncCh # <<>> /\ slot' = Head(syncCh) /\ syncCh' = Tail(syncCh) /\ UNCHANGED asyncCh
-  /\ UNCHANGED <<wire, fin, notifCh, sview, rview, stask, rtask, per, nxt, nsend, nre, D, stale, hist>>
+  /\ UNCHANGED <<pq, pf, wire, fin, notifCh, sview, rview, stask, rtask, per, nxt, nsend, nre, D, stale, hist>>
 
 \* the sending task ends: channels, the parked notification and the task are gone; the substream is shut down
-EndSender == /\ stask' = FALSE /\ syncCh' = <<>> /\ asyncCh' = <<>> /\ slot' = Nil /\ fin' = TRUE
+EndSender == /\ stask' = FALSE /\ syncCh' = <<>> /\ asyncCh' = <<>> /\ slot' = Nil /\ pq' = <<>> /\ pf' = Nil /\ fin' = TRUE
 
-\* poll_ready / start_send on the outbound substream
+\* poll_ready / start_send on the outbound substream: the frame joins pending_out_frames
 ConnWrite ==
   /\ stask /\ slot # Nil
   /\ IF slot.len > MAXSZ
        THEN \* start_send fails (larger than the codec's maximum): CloseConnection
             /\ EndSender /\ UNCHANGED wire
-       ELSE /\ \/ /\ Len(wire) < WireCap /\ wire' = Append(wire, slot) /\ slot' = Nil
-               \/ /\ Mut = "drop_parked" /\ Len(wire) >= WireCap /\ slot' = Nil /\ UNCHANGED wire
-               \/ /\ Mut = "dup_write" /\ Len(wire) + 1 < WireCap /\ wire' = wire \o <<slot, slot>> /\ slot' = Nil
-            /\ UNCHANGED <<syncCh, asyncCh, stask, fin>>
+       ELSE /\ \/ /\ Len(pq) < SinkCap /\ pq' = Append(pq, [msg |-> slot, part |-> 1]) /\ slot' = Nil
+               \/ /\ Mut = "drop_parked" /\ Len(pq) >= SinkCap /\ slot' = Nil /\ UNCHANGED pq
+               \/ /\ Mut = "dup_write" /\ Len(pq) + 1 < SinkCap /\ pq' = pq \o <<[msg |-> slot, part |-> 1], [msg |-> slot, part |-> 1]>> /\ slot' = Nil
+            /\ UNCHANGED <<syncCh, asyncCh, stask, fin, pf, wire>>
   /\ UNCHANGED <<notifCh, sview, rview, rtask, per, nxt, nsend, nre, D, stale, hist>>
 
-\* receiving half: reserve a slot of the handle's channel, then read the inbound substream
+\* Sink::poll_flush: one poll_write.  The parked remainder (pending_out_frame) is taken first, else the head of
+\* pending_out_frames; a write that accepts only part of the frame parks the remainder again.
+\* (seeded defect "requeue_back": the remainder is put at the back of pending_out_frames)
+SinkFlush ==
+  /\ stask /\ Len(wire) < WireCap
+  /\ IF pf # Nil
+       THEN /\ wire' = Append(wire, [id |-> <<pf.msg.m, pf.msg.per, pf.msg.n>>, part |-> pf.part, msg |-> pf.msg])
+            /\ pf' = Nil /\ UNCHANGED pq
+       ELSE /\ pq # <<>>
+            /\ LET f == Head(pq) IN
+               /\ wire' = Append(wire, [id |-> <<f.msg.m, f.msg.per, f.msg.n>>, part |-> f.part, msg |-> f.msg])
+               /\ IF f.part < f.msg.parts
+                    THEN IF Mut = "requeue_back"
+                           THEN pq' = Append(Tail(pq), [f EXCEPT !.part = f.part + 1]) /\ pf' = Nil
+                           ELSE pf' = [f EXCEPT !.part = f.part + 1] /\ pq' = Tail(pq)
+                    ELSE pq' = Tail(pq) /\ pf' = Nil
+  /\ UNCHANGED <<syncCh, asyncCh, slot, fin, notifCh, sview, rview, stask, rtask, per, nxt, nsend, nre, D, stale, hist>>
+
+\* receiving half: reserve a slot of the handle's channel, then read one frame from the inbound substream: the length
+\* prefix of the first chunk says how many chunks belong to it; whatever bytes follow are taken as its body
 ConnRead ==
   /\ rtask /\ wire # <<>> /\ Len(notifCh) < N
-  /\ notifCh' = Append(notifCh, Head(wire)) /\ wire' = Tail(wire)
-  /\ UNCHANGED <<syncCh, asyncCh, slot, fin, sview, rview, stask, rtask, per, nxt, nsend, nre, D, stale, hist>>
+  /\ LET c == Head(wire) IN
+     IF c.part # 1
+       THEN \* the stream is mis-framed: garbage is handed on (or the read fails)
+            /\ notifCh' = Append(notifCh, [c.msg EXCEPT !.parts = 0]) /\ wire' = Tail(wire)
+       ELSE IF c.msg.parts = 1
+         THEN /\ notifCh' = Append(notifCh, c.msg) /\ wire' = Tail(wire)
+         ELSE /\ Len(wire) >= 2
+              /\ LET c2 == wire[2] IN
+                 notifCh' = Append(notifCh, IF c2.id = c.id /\ c2.part = 2 THEN c.msg ELSE [c.msg EXCEPT !.parts = 0])
+              /\ wire' = SubSeq(wire, 3, Len(wire))
+  /\ UNCHANGED <<syncCh, asyncCh, slot, pq, pf, fin, sview, rview, stask, rtask, per, nxt, nsend, nre, D, stale, hist>>
 
 \* NotificationHandle::poll_next: notifications of peers not in `peers` are dropped
 UserRecv ==
@@ -107,23 +142,24 @@ UserRecv ==
   /\ notifCh' = Tail(notifCh)
   /\ LET x == Head(notifCh) IN
      \* repaired: a notification of an earlier stream generation is dropped
-     D' = IF (rview /\ (~Fixed \/ x.per = per)) \/ Mut = "no_filter" THEN PDeliver(D, x.m, x.per, x.n, x.len, TRUE, TRUE) ELSE D
+     \* (parts = 0 marks a body that is not the bytes of that notification)
+     D' = IF (rview /\ (~Fixed \/ x.per = per)) \/ Mut = "no_filter" THEN PDeliver(D, x.m, x.per, x.n, x.len, x.parts # 0, TRUE) ELSE D
   /\ Note([a |-> "recv"])
-  /\ UNCHANGED <<syncCh, asyncCh, slot, wire, fin, sview, rview, stask, rtask, per, nxt, nsend, nre, stale>>
+  /\ UNCHANGED <<syncCh, asyncCh, slot, pq, pf, wire, fin, sview, rview, stask, rtask, per, nxt, nsend, nre, stale>>
 
 \* the sender's side ends the stream (close_substream / error); the user learns it later
 SenderEnds == /\ stask /\ EndSender /\ Note([a |-> "sclose"])
               /\ UNCHANGED <<wire, notifCh, sview, rview, rtask, per, nxt, nsend, nre, D, stale>>
 SenderSeesClosed == /\ ~stask /\ sview /\ sview' = FALSE /\ D' = PClosed(D)
-                    /\ UNCHANGED <<syncCh, asyncCh, slot, wire, fin, notifCh, rview, stask, rtask, per, nxt, nsend, nre, stale, hist>>
+                    /\ UNCHANGED <<syncCh, asyncCh, slot, pq, pf, wire, fin, notifCh, rview, stask, rtask, per, nxt, nsend, nre, stale, hist>>
 \* the receiving task ends: after the sender shut the substream down and everything was read,
 \* or at any time (receiver closes / connection lost): unread data is discarded
 ReceiverEnds == /\ rtask /\ (fin => TRUE) /\ rtask' = FALSE /\ wire' = <<>>
-                /\ (stask => EndSender) /\ (~stask => UNCHANGED <<syncCh, asyncCh, slot, stask, fin>>)
+                /\ (stask => EndSender) /\ (~stask => UNCHANGED <<syncCh, asyncCh, slot, pq, pf, stask, fin>>)
                 /\ Note([a |-> "rclose"])
                 /\ UNCHANGED <<notifCh, sview, rview, per, nxt, nsend, nre, D, stale>>
 ReceiverSeesClosed == /\ ~rtask /\ rview /\ rview' = FALSE
-                      /\ UNCHANGED <<syncCh, asyncCh, slot, wire, fin, notifCh, sview, stask, rtask, per, nxt, nsend, nre, D, stale, hist>>
+                      /\ UNCHANGED <<syncCh, asyncCh, slot, pq, pf, wire, fin, notifCh, sview, stask, rtask, per, nxt, nsend, nre, D, stale, hist>>
 
 Reopen ==
   /\ ~stask /\ ~rtask /\ ~sview /\ ~rview /\ nre < MaxReopen
@@ -133,20 +169,20 @@ Reopen ==
   \* notifications of the closed stream still sit in the handle's channel: they will pass the filter
   /\ stale' = (stale \/ (notifCh # <<>> /\ ~Fixed))
   /\ Note([a |-> "reopen"])
-  /\ UNCHANGED <<syncCh, asyncCh, slot, notifCh, nsend>>
+  /\ UNCHANGED <<syncCh, asyncCh, slot, pq, pf, notifCh, nsend>>
 
-Next == \/ \E o \in BOOLEAN : SendSync(o) \/ SendAsync(o)
-        \/ ConnTake \/ ConnWrite \/ ConnRead \/ UserRecv
+Next == \/ \E sz \in Sizes : SendSync(sz) \/ SendAsync(sz)
+        \/ ConnTake \/ ConnWrite \/ SinkFlush \/ ConnRead \/ UserRecv
         \/ SenderEnds \/ SenderSeesClosed \/ ReceiverEnds \/ ReceiverSeesClosed \/ Reopen
 
 Spec == Init /\ [][Next]_vars
 
 LedgerOK == D.bad = "" \/ (KnownStale /\ stale)
 \* nothing in flight and the stream open on both sides: everything accepted was delivered
-Drained == stask /\ rtask /\ sview /\ rview /\ syncCh = <<>> /\ asyncCh = <<>> /\ slot = Nil /\ wire = <<>> /\ notifCh = <<>>
+Drained == stask /\ rtask /\ sview /\ rview /\ syncCh = <<>> /\ asyncCh = <<>> /\ slot = Nil /\ pq = <<>> /\ pf = Nil /\ wire = <<>> /\ notifCh = <<>>
 NoLoss == (Drained /\ ~(KnownStale /\ stale)) => PEnd(D, TRUE).bad = ""
 \* the synchronous channel never holds more than its capacity, the asynchronous one neither (send waits)
 Bounded == Len(syncCh) <= S /\ Len(asyncCh) <= A /\ Len(notifCh) <= N
-View == <<syncCh, asyncCh, slot, wire, fin, notifCh, sview, rview, stask, rtask, per, nxt, nsend, nre, D, stale>>
+View == <<syncCh, asyncCh, slot, pq, pf, wire, fin, notifCh, sview, rview, stask, rtask, per, nxt, nsend, nre, D, stale>>
 Emit == (hist' # hist) => PrintT(<<"B", ToJson(hist')>>)
 =============================================================================
